@@ -63,7 +63,7 @@ func TestVerifC13(t *testing.T) {
 	c13TotMu.Lock()
 	defer c13TotMu.Unlock()
 	if c13Tot["runs"] >= 5 {
-		for _, must := range []string{"putb_parked", "putb_reordered", "putb_completed_after_later_writes", "shared_overlapping_pairs", "manifests_reloaded", "histories_checked", "ops_write", "ops_read", "ops_rename", "putb_failed"} {
+		for _, must := range []string{"putb_parked", "putb_reordered", "putb_completed_after_later_writes", "shared_overlapping_pairs", "manifests_reloaded", "histories_checked", "ops_write", "ops_read", "ops_rename", "putb_failed", "ns_rendezvous_complete", "ns_mkdir_overlapping_calls", "ns_files_created_in_late_dirs"} {
 			if c13Tot[must] == 0 {
 				run.Inconclusive("counter " + must + " is zero in this batch: the monitor did not observe what it is meant to judge")
 			}
@@ -86,6 +86,7 @@ type c13Cfg struct {
 	MaxDelay    int    `json:"max_delay_events"`
 	Savers      int    `json:"savers"`
 	Preload     bool   `json:"preload"`
+	LateDirs    int    `json:"late_dirs"` // directories that several workers create at once during the activity
 }
 
 func c13GenCfg(rng *verifkit.Rand) c13Cfg {
@@ -111,6 +112,7 @@ func c13GenCfg(rng *verifkit.Rand) c13Cfg {
 	c.MaxDelay = rng.PickInt(3, 8, 20, 40)
 	c.Savers = rng.Range(0, 2)
 	c.Preload = rng.Bool()
+	c.LateDirs = rng.Range(1, 4)
 	return c
 }
 
